@@ -42,3 +42,31 @@ Qed.
 
 Lemma gen_slice1_eq : forall b0 d s bb ee st, gen_slice1 b0 d s bb ee st = slice (mkView b0 [d] [s]) [IR bb ee st].
 Proof. intros. reflexivity. Qed.
+
+(* diag_vector(offdiag) and submatrix_on_diagonal(ibegin, iend) of a rank-2 view, from the generated pieces *)
+Definition gen_diag_vector (v : view) (k : Z) : view :=
+  match dims v, strides v with
+  | [d0; d1], [s0; s1] =>
+      if k >=? 0 then mkView (dgp_base (base v) d0 d1 s0 s1 k) [dgp_dim (base v) d0 d1 s0 s1 k] [dgp_stride (base v) d0 d1 s0 s1 k]
+      else mkView (dgn_base (base v) d0 d1 s0 s1 k) [dgn_dim (base v) d0 d1 s0 s1 k] [dgn_stride (base v) d0 d1 s0 s1 k]
+  | _, _ => v
+  end.
+Definition gen_submatrix_on_diagonal (v : view) (ib ie : Z) : view :=
+  match dims v, strides v with
+  | [d0; d1], [s0; s1] => mkView (sd_base (base v) s0 s1 ib ie) [sd_len ib ie; sd_len ib ie] [s0; s1]
+  | _, _ => v
+  end.
+
+Lemma gen_diag_vector_eq : forall v k, gen_diag_vector v k = diag_vector v k.
+Proof.
+  intros v k. unfold gen_diag_vector, diag_vector.
+  destruct (dims v) as [|d0 [|d1 [|? ?]]]; try reflexivity.
+  destruct (strides v) as [|s0 [|s1 [|? ?]]]; try reflexivity.
+  all: rewrite Z.geb_leb; reflexivity.
+Qed.
+Lemma gen_submatrix_on_diagonal_eq : forall v ib ie, gen_submatrix_on_diagonal v ib ie = submatrix_on_diagonal v ib ie.
+Proof.
+  intros v ib ie. unfold gen_submatrix_on_diagonal, submatrix_on_diagonal.
+  destruct (dims v) as [|d0 [|d1 [|? ?]]]; try reflexivity.
+  all: destruct (strides v) as [|s0 [|s1 [|? ?]]]; reflexivity.
+Qed.
